@@ -130,8 +130,14 @@ func runProp(t *testing.T, ps *propSpec) {
 	}
 	if r.Replay != "" {
 		var rf replayFile
-		if err := vkit.LoadJSON(r.Replay, &rf); err != nil || rf.Script == nil {
+		if err := vkit.LoadJSON(r.Replay, &rf); err != nil {
 			t.Fatalf("cannot load replay %s: %v", r.Replay, err)
+		}
+		if rf.Script == nil { // a journaled bare script (crash isolation)
+			rf.Script = &Script{}
+			if err := vkit.LoadJSON(r.Replay, rf.Script); err != nil || len(rf.Script.Steps) == 0 {
+				t.Fatalf("cannot load replay %s as a script: %v", r.Replay, err)
+			}
 		}
 		res := runCase(t, rf.Script, true)
 		account(rf.Script, res, "")
